@@ -253,7 +253,10 @@ def replay_biogeme_derivatives(rec) -> dict:
     # created: the function must follow the expression's current numbering
     b_again = bio.BIOGEME(DB, e2, **nd)
     e3 = Builder(pool, rec['ops'], share=True).build(root)
-    obj = e3.create_objective_function(database=DB, **nd)
+    # with or without the BHHH option: f_g_h() returns value, gradient and the matrix of SECOND DERIVATIVES
+    import zlib
+    obj = (e3.create_objective_function(database=DB, bhhh=True, **nd) if zlib.crc32(repr(rec['ops']).encode()) % 2
+           else e3.create_objective_function(database=DB, **nd))
     kept = []   # outputs kept while later evaluations are made: they must not change afterwards
     for p in range(pool.npoints):
         if any(vals[r][p] is None or jets[r][p] is None for r in rows):
